@@ -441,6 +441,11 @@ def check(fx, rep, tier):
     from .c16 import check_diagonal
 
     check_diagonal(mm, core.Retag(rep, "R15.3"))
+    # which span shapes a packed encoding may have to give way to dynamic bytes / an array - in particular the empty one, which
+    # says nothing and must never conflict (shared with C16 R16.3)
+    from .c16 import check_span_shapes
+
+    check_span_shapes(mm, core.Retag(rep, "R15.3"))
     check_any_identity(mm, rep)
     # evidence is joined across equalities only if equalities are recorded and resolved (C14 R14.2, re-evaluated)
     from .. import core as _core
